@@ -1,6 +1,7 @@
 package gosym
 
 import (
+	"strings"
 	"fmt"
 	"go/types"
 )
@@ -61,6 +62,11 @@ func cstr(v value) string {
 }
 
 func (in *interpreter) freshVar(name string, w uint8) *Term {
+	if in.inMerge > 0 && !strings.HasPrefix(name, "clock.") {
+		// inputs are numbered per name in call order (the native runtime does the same); an input drawn
+		// inside a speculatively executed arm would be numbered differently from the native run
+		panic(mergeAbort{"input drawn in arm"})
+	}
 	n := in.varCount[name]
 	in.varCount[name] = n + 1
 	full := name
